@@ -54,6 +54,25 @@ def stateJson (s : WI) : Json :=
     ("nextIndexes", natsJ (nextIndexes s)),
     ("result", Json.arr ((resultList s).map fun p => Json.arr #[Json.num p.1, Json.num p.2]).toArray)]
 
+def traceE (e : EvalSpec) (s : WI) : List Op → List WI
+  | [] => []
+  | o :: os => let s' := stepE e s o; s' :: traceE e s' os
+
+def boolOr (j : Json) (k : String) (d : Bool) : Bool :=
+  match j.getObjValAs? Bool k with
+  | .ok b => b
+  | .error _ => d
+
+def evalOfJson (a : Json) : Except String EvalSpec :=
+  match a.getObjVal? "eval" with
+  | .ok Json.null => pure {}
+  | .error _ => pure {}
+  | .ok e => do
+    let bad ← match e.getObjVal? "bad" with
+      | .ok (Json.arr xs) => xs.toList.mapM fun x => x.getNat?
+      | _ => pure []
+    pure { itemsOk := boolOr e "itemsOk" true, concOk := boolOr e "concOk" true, badInputs := bad }
+
 /-- all states along a run: after each op -/
 def trace (s : WI) : List Op → List WI
   | [] => []
@@ -67,7 +86,8 @@ def handle (fn : String) (a : Json) : Option (Except String Json) :=
       let r ← a.getObjValAs? Nat "retries"
       let opsJ ← a.getObjValAs? (Array Json) "ops"
       let ops ← opsJ.toList.mapM opOfJson
-      pure (Json.arr ((trace (init n c r) ops).map stateJson).toArray)
+      let e ← evalOfJson a
+      pure (Json.arr ((traceE e (init n c r) ops).map stateJson).toArray)
   | _ => none
 
 end Mistral.Drv.WithItems
